@@ -2173,6 +2173,9 @@ pub fn c08() -> CheckDef {
 // ------------------------------------------------------------------------------------------ C17
 
 fn c17_gen_faulty(seed: u64, run: u64, thorough: bool) -> Plan {
+    if run >= 6000 {
+        return world_b_limits_long("C17", "b_limits_faults", seed, run);
+    }
     with_socket_faults(world_b_limits("C17", "b_limits_faults", seed, run, thorough, false), seed, run)
 }
 fn c17_gen_clean(seed: u64, run: u64, thorough: bool) -> Plan {
@@ -2193,7 +2196,7 @@ pub fn c17() -> CheckDef {
         ],
         panic_is_violation: no_panics,
         hang_is_violation: false,
-        quick_runs: 6000,
+        quick_runs: 7000,
         thorough_runs: 30_000,
         rule: "one case = one simulated run; limit pair = f(run index); distinct = distinct run digest; non-trivial = at least 10 server probes and one connected client",
         real_code: REAL_B,
